@@ -91,6 +91,10 @@ def gen_model(rng):
              "stream_seeds": [rng.randrange(1, 10 ** 9) for _ in range(n_streams)],
              "probe": False}
     if rng.random() < 0.3:
+        # one more stream: the default stream of a StreamInformation() made in
+        # construct_model (documented: a fresh stream with seed 10)
+        model["default_stream_info"] = True
+    if rng.random() < 0.3:
         # streams registered under ids (one generator may serve several ids), seeds
         # of the replication set by an updater in construct_model
         ids = ["default", "arrivals", "service", "routing", "a", "b"]
@@ -111,14 +115,16 @@ def generate(seed, tier, idx=0):
     s1 = rng.randrange(1, 2 ** 32 - 1)
     perturbs = [
         {"hashseed": "0", "pause": "none"},
-        {"hashseed": "1", "pause": "none", "id_offset": 10 ** 3, "heap_noise": 20000},
+        {"hashseed": "1", "pause": "none", "id_offset": 10 ** 3, "heap_noise": 20000,
+         "prior_library_use": 7},
         {"hashseed": "4242", "pause": "none", "gc_off": True, "prior_events": 50,
          "sched": {"kind": "pct", "seed": s1, "p": 0.02, "d": 3, "step_cost_us": 10}},
         {"hashseed": str(s1), "pause": "none", "id_offset": 10 ** 6, "heap_noise": 333,
          "sched": {"kind": "site", "seed": s1 + 1, "q": 0.2, "p": 0.0, "d": 3,
                    "step_cost_us": 100}},
         {"hashseed": "random", "pause": "steps", "k": rng.randint(1, 6), "heap_noise": 5000},
-        {"hashseed": "7", "pause": "steps", "k": rng.randint(1, 6), "id_offset": 17},
+        {"hashseed": "7", "pause": "steps", "k": rng.randint(1, 6), "id_offset": 17,
+         "prior_library_use": 3},
         {"hashseed": "random", "pause": "pauses",
          "pause_at": sorted(set(rng.randint(1, 12) for _ in range(3)))},
         {"hashseed": "99", "pause": "pauses", "pause_at": [1, 2, 3], "gc_off": True,
